@@ -12,6 +12,7 @@ import (
 	"sort"
 	"strconv"
 	"strings"
+	"syscall"
 	"time"
 )
 
@@ -115,9 +116,19 @@ func (r *runner) runChild(spec childSpec, pinned bool) (*Obs, error) {
 	select {
 	case err = <-done:
 	case <-time.After(60 * time.Second):
-		cmd.Process.Kill()
-		<-done
-		return nil, fmt.Errorf("child timed out (hang) on %s", string(b))
+		// a hang: ask the Go runtime for a goroutine dump (SIGQUIT) before killing, so that loader and runner can be told apart
+		cmd.Process.Signal(syscall.SIGQUIT)
+		select {
+		case <-done:
+		case <-time.After(10 * time.Second):
+			cmd.Process.Kill()
+			<-done
+		}
+		dump := stderr.String()
+		if len(dump) > 30000 {
+			dump = dump[:30000] + "\n[truncated]"
+		}
+		return nil, fmt.Errorf("child did not return within 60 s (hang) on %s\ngoroutine dump after SIGQUIT:\n%s", string(b), dump)
 	}
 	r.childN++
 	o := &Obs{Wall: time.Since(t0), Stderr: stderr.String(), State: map[string]string{}}
